@@ -370,9 +370,11 @@ def _collect_bound_values(
         if isinstance(node, GraphNode):
             # Get bound values from the inner graph
             inner_bound = node.graph.inputs.bound
-            # Merge into all_bound (current graph's values take precedence)
-            for key, value in inner_bound.items():
-                if key not in all_bound:
-                    all_bound[key] = value
+            # Merge into all_bound under the wrapper's current input names
+            # (current graph's values take precedence)
+            for outer_name in node.inputs:
+                key = node._resolve_original_input_name(outer_name)
+                if key in inner_bound and outer_name not in all_bound:
+                    all_bound[outer_name] = inner_bound[key]
 
     return all_bound
